@@ -1,4 +1,5 @@
-/-! scratch: compile_pattern_list / expect_exact pattern preparation (repaired _coerce_expect_re) -/
+/-! `compile_pattern_list` / `expect_exact` pattern preparation (repaired `_coerce_expect_re`) as decision logic
+    over pattern *forms* (C20). -/
 namespace Fm
 
 inductive Mode | bytes | unicode deriving DecidableEq, Repr
@@ -81,5 +82,71 @@ def compileOnePre (m : Mode) : Form → Except Err CPat
 
 example : compileOnePre .bytes (.compiledStr [97] { icase := true }) = .ok (.re [97] {}) ∧
     compileOnePre .bytes (.compiledBytes [97] { icase := true }) = .ok (.re [97] { icase := true }) := ⟨rfl, rfl⟩
+
+/-- `expect_exact`'s `prepare_pattern`: strings (ASCII text coerced in bytes mode), EOF, TIMEOUT; anything else,
+    compiled patterns included, is a TypeError -/
+inductive XPat | str (txt : List Nat) | eof | timeout deriving DecidableEq, Repr
+
+def prepareOne (m : Mode) : Form → Except Err XPat
+  | .str t => .ok (.str t)
+  | .bytes t => match m with | .bytes => .ok (.str t) | .unicode => .error .typeError
+  | .eof => .ok .eof
+  | .timeout => .ok .timeout
+  | _ => .error .typeError
+
+def prepareArg (m : Mode) (arg : Form ⊕ List Form) : Except Err (List XPat) :=
+  match arg with
+  | .inl p => [p].mapM (prepareOne m)
+  | .inr ps => ps.mapM (prepareOne m)
+
+/-- **forms_equivalent**: in each mode all accepted forms of one pattern (text `t`, flags `f`) compile to the same
+    searcher input; a plain string is the compiled pattern whose flags are DOTALL (+ IGNORECASE iff set) -/
+theorem forms_equivalent (ic : Bool) (t : List Nat) (f : Flags) :
+    -- bytes-mode object: compiled bytes = compiled str; bytes = ASCII str = compiled with the string flags
+    compileOne .bytes ic (.compiledBytes t f) = compileOne .bytes ic (.compiledStr t f) ∧
+    compileOne .bytes ic (.bytes t) = compileOne .bytes ic (.str t) ∧
+    compileOne .bytes ic (.str t) = compileOne .bytes ic (.compiledBytes t { dotall := true, icase := ic }) ∧
+    -- unicode-mode object
+    compileOne .unicode ic (.compiledStr t f) = compileOne .unicode ic (.compiledBytes t f) ∧
+    compileOne .unicode ic (.str t) = compileOne .unicode ic (.compiledStr t { dotall := true, icase := ic }) :=
+  ⟨rfl, rfl, rfl, rfl, rfl⟩
+
+theorem ignorecase_added_iff_set (m : Mode) (ic : Bool) (t : List Nat) (f : Flags)
+    (h : compileOne m ic (.str t) = .ok (.re t f)) : f.icase = ic ∧ f.dotall = true := by
+  simp only [compileOne, Except.ok.injEq, CPat.re.injEq, true_and] at h
+  subst h; exact ⟨rfl, rfl⟩
+
+theorem exact_single_eq_singleton (m : Mode) (p : Form) : prepareArg m (.inl p) = prepareArg m (.inr [p]) := rfl
+
+theorem exact_str_eq_bytes_in_bytes_mode (t : List Nat) : prepareOne .bytes (.str t) = prepareOne .bytes (.bytes t) := rfl
+
+theorem exact_other_rejected (m : Mode) (pre post : List Form) (bad : Form)
+    (hbad : bad = .other ∨ (∃ t f, bad = .compiledStr t f) ∨ (∃ t f, bad = .compiledBytes t f))
+    (hpre : ∀ p ∈ pre, ∃ c, prepareOne m p = .ok c) :
+    (pre ++ bad :: post).mapM (prepareOne m) = .error .typeError := by
+  have hb : prepareOne m bad = .error .typeError := by
+    rcases hbad with rfl | ⟨t, f, rfl⟩ | ⟨t, f, rfl⟩ <;> rfl
+  induction pre with
+  | nil => simp [List.mapM_cons, hb]; rfl
+  | cons p t ih =>
+    obtain ⟨c, hc⟩ := hpre p (by simp)
+    have := ih (fun q hq => hpre q (by simp [hq]))
+    simp only [List.cons_append, List.mapM_cons, hc]
+    rw [this]; rfl
+
+/-- an expect call is "compile, then run the Expecter": when compilation fails the object is untouched,
+    so nothing of the child's output has been consumed -/
+def expectTop {σ ρ : Type} (m : Mode) (ic : Bool) (arg : Form ⊕ List Form) (run : List CPat → σ → ρ × σ) (st : σ) :
+    Except Err ρ × σ :=
+  match compileArg m ic arg with
+  | .error e => (.error e, st)
+  | .ok ps => let r := run ps st; (.ok r.1, r.2)
+
+theorem other_rejected_before_consumption {σ ρ : Type} (m : Mode) (ic : Bool) (pre post : List Form)
+    (hpre : ∀ p ∈ pre, ∃ c, compileOne m ic p = .ok c) (run : List CPat → σ → ρ × σ) (st : σ) :
+    expectTop m ic (.inr (pre ++ .other :: post)) run st = (.error .typeError, st) := by
+  have h : compileArg m ic (.inr (pre ++ .other :: post)) = .error .typeError := other_rejected m ic pre post hpre
+  unfold expectTop
+  rw [h]
 
 end Fm
